@@ -17,7 +17,8 @@ RULE = ("roll-up streams: RU2 / RU3 / RU4 sent once or repeated on every line, C
         "Oracle: transmitted displayable characters (whitespace removed) == concatenated caption "
         "text (whitespace removed); every row is a contiguous run inside one caption; captions "
         "grouped by start time: starts strictly increasing between groups, start < end, each "
-        "group ends exactly when the next begins. Non-trivial: >= 3 rows.")
+        "group ends exactly when the next begins. Non-trivial: >= 3 rows. "
+        'The SCCReader object is fresh or has a past (see C05). ')
 ASSUMPTIONS = [
     "captions that share a start time (rows of one paint-on burst on non-adjacent screen rows) "
     "are one display state: adjacency of end/start is judged between groups of equal start",
